@@ -172,9 +172,18 @@ func c05Scenario(c *Ctx, idx int, r *Rng) {
 		c.R.Count("family.prune-remote-is-not-the-default-remote")
 	}
 	// ambient configuration
-	ambient := Pick(r, []string{"", "", "", "diff.noprefix", "diff.mnemonicprefix"})
+	// ambient user configuration that changes the shape of `git log` / `git diff` output
+	ambient := Pick(r, []string{"", "", "", "", "diff.noprefix=true", "diff.mnemonicprefix=true", "log.showroot=false", "log.showroot=false",
+		"diff.relative=true", "diff.relative=true", "diff.renames=copies", "core.quotepath=false", "log.showsignature=true",
+		"log.diffmerges=combined", "log.diffmerges=first-parent", "diff.orderfile=.gitattributes", "diff.algorithm=histogram", "diff.interhunkcontext=5", "diff.suppressblankempty=true"})
 	if ambient != "" {
-		w.git("config", ambient, "true")
+		kv := strings.SplitN(ambient, "=", 2)
+		w.git("config", kv[0], kv[1])
+		c.R.Count("ambient." + kv[0])
+	}
+	pruneCwd := w.dir
+	if strings.HasPrefix(ambient, "diff.relative") {
+		pruneCwd = filepath.Join(w.dir, "dir") // with diff.relative, where the command runs decides what a diff shows
 	}
 	attrs := Pick(r, []string{
 		"*.bin filter=lfs diff=lfs merge=lfs -text\n*.dat filter=lfs -text\n",
@@ -216,7 +225,7 @@ func c05Scenario(c *Ctx, idx int, r *Rng) {
 	}
 	s.log("ambient=%s attrs=%q refsdays=%d commitsdays=%d offset=%d fetchexclude=%s", ambient, attrs, refsDays, commitsDays, offsetDays, exclude)
 	w.write(".gitattributes", []byte(attrs))
-	s.commit(w.dir, "attrs")
+	rootHasLfs := r.Chance(35)
 	files := []string{"a.bin", "b.bin", "dir/c.bin", "d.dat", "dir/e.dat"}
 	sizeOf := map[string]int64{}
 	newContent := func() []byte {
@@ -224,6 +233,13 @@ func c05Scenario(c *Ctx, idx int, r *Rng) {
 		sizeOf[sha(b)] = int64(len(b))
 		return b
 	}
+	if rootHasLfs {
+		// the ROOT commit itself introduces LFS files (a repository that started with LFS)
+		w.write("a.bin", newContent())
+		w.write("dir/c.bin", newContent())
+		c.R.Count("root-commit-has-lfs-files")
+	}
+	s.commit(w.dir, "attrs")
 	branches := []string{"master"}
 	worktrees := []string{w.dir}
 	stashes := 0
@@ -515,19 +531,28 @@ func c05Scenario(c *Ctx, idx int, r *Rng) {
 	}
 	if !recentOff && refsDays > 0 {
 		since := s.now.AddDate(0, 0, -(refsDays + offsetDays))
-		out, _ := w.git("for-each-ref", "--format=%(refname) %(objectname) %(committerdate:unix)", "refs/heads", "refs/remotes")
+		// branches, remote-tracking branches AND tags: a tag is a ref; for an annotated tag the commit it
+		// names (and that commit's date) is what counts
+		out, _ := w.git("for-each-ref", "--format=%(refname)|%(objectname)|%(committerdate:unix)|%(*objectname)|%(*committerdate:unix)", "refs/heads", "refs/remotes", "refs/tags")
 		for _, l := range strings.Split(strings.TrimSpace(out), "\n") {
-			f := strings.Fields(l)
-			if len(f) != 3 {
+			f := strings.Split(l, "|")
+			if len(f) != 5 {
 				continue
 			}
+			sha, ds, kind := f[1], f[2], "recent ref "
+			if f[3] != "" {
+				sha, ds, kind = f[3], f[4], "recent annotated tag "
+			}
 			var u int64
-			fmt.Sscan(f[2], &u)
+			fmt.Sscan(ds, &u)
 			t := time.Unix(u, 0)
 			// stay clear of the boundary: only refs at least 6 hours inside the window are demanded
-			if t.After(since.Add(6 * time.Hour)) {
-				tips = append(tips, refInfo{f[0], f[1], t})
-				keepTree(f[1], "recent ref "+f[0], true)
+			if u > 0 && t.After(since.Add(6*time.Hour)) {
+				tips = append(tips, refInfo{f[0], sha, t})
+				keepTree(sha, kind+f[0], true)
+				if strings.HasPrefix(f[0], "refs/tags/") {
+					c.R.Count("recent-ref.tag")
+				}
 			}
 		}
 	}
@@ -623,7 +648,8 @@ func c05Scenario(c *Ctx, idx int, r *Rng) {
 	}
 	psrv.mu.Unlock()
 	c05LogScan(c, w, fmt.Sprintf("C05 scen seed=%d idx=%d", c.Seed, idx), r)
-	out, code := runIn(w.dir, append(append([]string(nil), w.env...), "GIT_TRACE=1"), w.lfs, append([]string{"prune"}, flags...)...)
+	os.MkdirAll(pruneCwd, 0o755)
+	out, code := runIn(pruneCwd, append(append([]string(nil), w.env...), "GIT_TRACE=1"), w.lfs, append([]string{"prune"}, flags...)...)
 	after := w.localObjects()
 	s.log("git lfs prune %s -> %d", strings.Join(flags, " "), code)
 	enc := fmt.Sprintf("C05 scen seed=%d idx=%d steps=%s", c.Seed, idx, strings.Join(s.steps, " ; "))
